@@ -23,7 +23,9 @@ KindOf(p) == IF p \in {<<"T", "d">>, <<"T", "e">>, <<"T", "d", "sub">>} THEN "di
 Outside == {<<"O">>, <<"O", "g">>, <<"O", "od">>, <<"O", "od", "h">>}
 LinkPlaces == {<<"T", "l">>, <<"T", "d", "l">>}
 Targets == {"file-inside", "dir-inside", "file-outside", "dir-outside", "ancestor", "dangling", "none"}
-Ops == {"Rm", "RmLink", "CleanDir", "GarbageCollect", "RmExcluding", "CleanDirExcluding"}
+\* GarbageCollect: everything (the link too) is older than the threshold; GarbageCollectAged: every file and directory, inside
+\* and outside, is older than the threshold but the link itself is fresh - it stays, and what it points to is not collected
+Ops == {"Rm", "RmLink", "CleanDir", "GarbageCollect", "GarbageCollectAged", "RmExcluding", "CleanDirExcluding"}
 Patterns == {"f", "d", "l", "sub"}
 
 VARIABLES present,   \* set of optional inside nodes that exist
@@ -57,17 +59,21 @@ HasLink == target # "none"
 Start == IF op = "RmLink" THEN linkAt ELSE T
 Sub(p) == {n \in Nodes : IsPrefix(p, n)}                      \* links are leaves: prefix is structure, not resolution
 Excluding == op \in {"RmExcluding", "CleanDirExcluding"}
-Matches(n) == Excluding /\ Len(n) > Len(Start) /\ Last(n) = pattern
+Aged == op = "GarbageCollectAged"
+Matches(n) == \/ Excluding /\ Len(n) > Len(Start) /\ Last(n) = pattern
+              \/ Aged /\ HasLink /\ n = linkAt                   \* the fresh link is kept, hence its ancestors too
 \* protected: an excluded entry, everything beneath it, and its ancestors within the removal
 Protected(n) == \E m \in Sub(Start) : Matches(m) /\ (IsPrefix(m, n) \/ IsPrefix(n, m))
-KeepsRoot == op \in {"CleanDir", "CleanDirExcluding", "GarbageCollect"}
+KeepsRoot == op \in {"CleanDir", "CleanDirExcluding", "GarbageCollect", "GarbageCollectAged"}
 Removed == {n \in Sub(Start) : ~Protected(n) /\ ~(KeepsRoot /\ n = Start)}
 After == Nodes \ Removed
 
 \* ---- a removal that decides existence / kind through the link ----------------------------------
 LinkDirTarget == IF target = "dir-inside" THEN <<"T", "d">> ELSE IF target = "dir-outside" THEN <<"O", "od">> ELSE <<>>
 OutsideAfterFollow ==
-    IF HasLink /\ linkAt \in Removed /\ target = "dir-outside" THEN Outside \ {<<"O", "od", "h">>} ELSE Outside
+    IF HasLink /\ linkAt \in Removed /\ target = "dir-outside" THEN Outside \ {<<"O", "od", "h">>}
+    ELSE IF HasLink /\ Aged /\ target = "dir-outside" THEN Outside \ {<<"O", "od", "h">>, <<"O", "od">>}    \* collected through the fresh link
+    ELSE Outside
 InsideAfterFollow ==
     IF HasLink /\ target = "dangling" /\ linkAt \in Removed THEN After \cup {linkAt} ELSE After    \* "does not exist": left behind
 
@@ -76,7 +82,7 @@ InsideAfter == IF FollowLinks THEN InsideAfterFollow ELSE After
 
 \* ---- properties ---------------------------------------------------------------------------------
 OutsideUnchanged == OutsideAfter = Outside
-SuccessMeansGone == (~Excluding) => (InsideAfter \cap Sub(Start)) \subseteq (IF KeepsRoot THEN {Start} ELSE {})
+SuccessMeansGone == (~Excluding /\ ~Aged) => (InsideAfter \cap Sub(Start)) \subseteq (IF KeepsRoot THEN {Start} ELSE {})
 ExcludedSurvive == \A n \in Sub(Start) : Protected(n) => n \in InsideAfter
 NothingElseTouched == \A n \in Nodes \ Sub(Start) : n \in InsideAfter
 
